@@ -409,3 +409,28 @@ Fixpoint run (s : sys) (ops : list op) : res (sys * list obs) :=
       y <- run (fst x) t ;;
       Ok (fst y, snd x :: snd y)
   end.
+
+(* ------------------------------------------------- vocabulary of the statements *)
+
+(* payloads written, in order: sample k (1-based) is the k-th OWrite *)
+Fixpoint written (ops : list op) : list bytes :=
+  match ops with
+  | [] => []
+  | OWrite p :: t => p :: written t
+  | _ :: t => written t
+  end.
+
+Definition nth_written (ws : list bytes) (sn : Z) : option bytes :=
+  if 1 <=? sn then nth_error ws (Z.to_nat (sn - 1)) else None.
+
+(* operations of the fault-schedule language the byte-identity theorem ranges over:
+   payloads below 4 GiB, the reader only sees datagrams addressed to it (which = 1),
+   no hand-made fragments, NACK_FRAG numbers are unsigned *)
+Definition op_ok (o : op) : Prop :=
+  match o with
+  | OWrite p => blen p < two32
+  | ODeliver _ _ which => which = 1
+  | OForeign _ => False
+  | OForged _ _ base set => 0 <= base /\ Forall (fun k => 0 <= k) set
+  | _ => True
+  end.
